@@ -63,3 +63,21 @@ Theorem C12_hints_first : forall gw local loc,
   get_sorted_roots gw local loc = (hint_roots gw loc ++ map root (sorted (take 32 loc) local))%list.
 Proof. exact hints_then_rendezvous. Qed.
 Print Assumptions C12_hints_first.
+
+(* ---- the evaluator used by the correspondence check is itself covered ---- *)
+From Coq Require Import Bool.
+From AV Require Import model.C12_run proofs.C12_run_proofs.
+
+(* the table-based sort evaluated on generated cases is the model's sort *)
+Theorem C12_evaluator_sort_is_model : forall h (all l : list svc),
+  (forall s, In s l -> In (uuid s) (map uuid all)) -> sorted_t (mk_wtab h all) l = sorted h l.
+Proof. exact sorted_t_eq. Qed.
+Print Assumptions C12_evaluator_sort_is_model.
+
+(* what the boolean oracle accepts really is a permutation with non-increasing weights *)
+Theorem C12_oracle_sound : forall t svcs out, order_ok_b t svcs out = true ->
+  Permutation out (map root svcs) /\
+  Sorted (fun a b => str_ltb a b = false)
+         (map (fun r => match find_root svcs r with Some s => wlook t (uuid s) | None => ""%string end) out).
+Proof. exact order_ok_b_sound. Qed.
+Print Assumptions C12_oracle_sound.
